@@ -127,6 +127,10 @@ func typedScript() []Op {
 		Op{K: opClone, H: 0}, Op{K: opAdd, H: 1, A: 1, B: 3}, Op{K: opRemFwd, H: 0, A: 3}, Op{K: opClear, H: 1},
 		Op{K: opRangeStop, H: 0, A: 0}, Op{K: opRangeStop, H: 0, A: 1}, Op{K: opRange, H: 0},
 		Op{K: opClear, H: 0}, Op{K: opAdd, H: 0, A: 3, B: 3}, Op{K: opProbe, A: 4, B: 5}, Op{K: opLen},
+		// two independent Bimaps used alternately, with a garbage collection in between
+		Op{K: opNew, H: 0, A: 1, B: 1}, Op{K: opAdd, H: 0, A: 1, B: 2}, Op{K: opNew, H: 0, A: 0, B: 2}, Op{K: opGC},
+		Op{K: opAdd, H: 3, A: 1, B: 2}, Op{K: opAdd, H: 2, A: 2, B: 1}, Op{K: opClear, H: 3}, Op{K: opAdd, H: 2, A: 3, B: 1}, Op{K: opRemRev, H: 0, B: 2},
+		Op{K: opGC}, Op{K: opAdd, H: 3, A: 0, B: 0}, Op{K: opRange, H: 2}, Op{K: opNested, H: 3, B: 4},
 	)
 	return ops
 }
@@ -136,7 +140,7 @@ var specTypes = pbt.Register(&pbt.Spec[TCase]{
 	Rule: "the C11.rand machine over 9 other Bimap instantiations, chosen per case: int->int with OVERLAPPING key/value universes containing the zero value; string->string with \"\", NUL, prefixes; " +
 		"float64->float64 where +0.0/-0.0 are the same key and the same value (no NaN); any->any with nil and equal numbers of different dynamic types; zero-size struct{} as key type (at most one pair) and as value type; " +
 		"*int (nil, distinct pointers to equal ints) -> [2]int8; named types whose String/GoString/Error methods return one text for all values; bool->uint8; model and oracle compare with Go's == only; " +
-		"enumerated: a fixed script (all collision patterns, removals, Clear, Clone, all Range variants) x 3 starts x every instantiation, then " + randMix + rule,
+		"enumerated: a fixed script (all collision patterns, removals, Clear, Clone, all Range variants, two independent Bimaps used alternately around runtime.GC()) x 3 starts x every instantiation, then " + randMix + rule,
 	Enum: func(shard, shards int, tier string, yield func(TCase) bool) {
 		idx := 0
 		for t := range typeRunners {
